@@ -1070,10 +1070,34 @@ def run_registration(case):
                 release.wait(TIMEOUT)
         return local
 
+    looking_up = case.get("a") == "lookup"
+    errors_file = _error_extraction.register_exception_extractor.__func__.__code__.co_filename if target is not None else None
+
     def tracer(frame, event, arg):
+        if looking_up:
+            # every line of eliot/_errors.py that thread A executes while its failed action looks its extractor up
+            return local if frame.f_code.co_filename == errors_file and frame.f_code is not target else None
         return local if frame.f_code is target else None
 
+    a_ends = []
+
     def a():
+        if looking_up:
+            # thread A: an action fails (its extractor, registered before, is looked up) while B registers another one
+            sys.settrace(tracer)
+            try:
+                try:
+                    with start_action(action_type="RegA-early"):
+                        raise RegA("x")
+                except RegA:
+                    pass
+                except BaseException as e:  # noqa
+                    problems.append("A's block was left by %s (%s) instead of the application's exception" % (type(e).__name__, str(e)[:60]))
+            finally:
+                sys.settrace(None)
+                finished_a.set()
+                parked.set()
+            return
         sys.settrace(tracer)
         try:
             eliot.register_exception_extractor(RegA, lambda e: {"reg_a": 1})
@@ -1093,6 +1117,8 @@ def run_registration(case):
     lg = MemoryLogger()
     prev = swap_logger(lg)
     try:
+        if looking_up:
+            eliot.register_exception_extractor(RegA, lambda e: {"reg_a": 1})
         ta = threading.Thread(target=a, daemon=True)
         tb = threading.Thread(target=b, daemon=True)
         if case.get("order") == "B;A":
@@ -1126,6 +1152,8 @@ def check_registration(ctx, case, obs):
         ctx.violation("registration scenario did not run: %s" % obs["problems"][0], case, key={"component": "extractor-registration"})
         return
     want = {"RegA": {"reg_a": 1}, "RegB": {"reg_b": 2}}
+    if case.get("a") == "lookup":
+        want["RegA-early"] = {"reg_a": 1}
     if obs["ends"] != want:
         ctx.violation("two threads registered extractors for two classes (A parked before its line %s of register_exception_extractor while B "
                       "registered); the failed actions then carry %s, expected %s" % (case.get("park"), obs["ends"], want), case,
@@ -1144,6 +1172,17 @@ def evaluate_registration(ctx):
         if not obs["was_parked"] and not obs["problems"]:
             break                            # A has no n-th line inside the function
         ctx.case(case, nontrivial=True, tags=["registration", "registration:parked"])
+        check_registration(ctx, case, obs)
+        n += 1
+    # a failing action looks its extractor up (thread A, parked before each line of eliot/_errors.py it executes) while
+    # thread B registers an extractor for another class
+    n = 1
+    while n <= 40:
+        case = dict(kind="registration", order="A[B]", park=n, a="lookup")
+        obs = run_registration(case)
+        if not obs["was_parked"] and not obs["problems"]:
+            break
+        ctx.case(case, nontrivial=True, tags=["registration", "registration:lookup-parked"])
         check_registration(ctx, case, obs)
         n += 1
 
